@@ -3,6 +3,7 @@ import itertools
 import warnings
 
 import graphlib as gl
+import common
 from common import run_driver
 
 RULE = ('single-rooted random DAGs (n <= 12; 25 thorough) x non-empty sequences of their nodes (length 1-9, with and without repeated '
@@ -179,7 +180,10 @@ def run_group(ctx, edges, kind, ic, hier_kind, inputs, stream):
                 problem, res = None, None
                 try:
                     tr.reset()
-                    res = tuple(int(i) for i in sorter.argsort(tids))
+                    raw = sorter.argsort(tids)
+                    res = tuple(int(i) for i in raw)
+                    if common.scribble(raw):          # the caller overwrites the sequence it was given; later answers must not show it
+                        ctx.count('result-overwritten-by-caller')
                     trace = list(tr.trace)
                     rounds, sim_ok = [list(r) for r in tr.rounds], tr.sim_ok
                     res2 = tuple(int(i) for i in sorter.argsort(tids))
@@ -262,9 +266,15 @@ def single_rooted(rng, n):
 
 def random_ic(rng, edges):
     nodes = gl.nodes_of(edges)
-    style = rng.choice(['random', 'zero', 'depth'])
+    style = rng.choice(['random', 'zero', 'depth', 'crowded', 'extreme'])
     if style == 'zero':
         return {n: 0.0 for n in nodes}
+    if style == 'crowded':
+        # all different as doubles, all the same in single precision (and some exactly equal): -log of neighbouring large counts
+        base = rng.choice([3.0, 17.25, 0.125, 24.0])
+        return {n: base + rng.randrange(0, 6) * base * 2.0 ** -40 for n in nodes}
+    if style == 'extreme':
+        return {n: rng.choice([0.0, 5e-324, 1e-300, 4.9e-10, 5e-10, 5.1e-10, 1e300, 1.7976931348623157e308, 2.0 ** 53, 2.0 ** 53 + 2]) for n in nodes}
     if style == 'random':
         return {n: rng.choice([0.0, 0.5, 1.0, 2.0, 3.5]) for n in nodes}
     subs = {}
